@@ -2,6 +2,7 @@ import KoordVerif.Common.Proto
 import KoordVerif.Model.C07
 import KoordVerif.Model.C07Hist
 import KoordVerif.Model.C07RO
+import KoordVerif.Model.C07Shape
 /-
 Driver for C07.  One case = one history on one node; three device types (0 gpu, 1 rdma, 2 fpga),
 three resource dimensions per type.  A resource list is 3 tokens, `_` = key absent.
@@ -19,6 +20,8 @@ three resource dimensions per type.  A resource list is 3 tokens, `_` = key abse
      output line.  code 0: add pod a minor b amount c; 1: rem pod a minor b amount c; 2: refresh totals a b of minors 0 1;
      3: allocate (request b per device, desired 1, nil scorer) and commit the result for pod a.
      output: xh <t f u of minor 0> <t f u of minor 1> | (<k> (<minor> <amount>)*k for pod 1, pod 2) | <wf> <exact> <sched> | <chosen minor or -1 per alloc>
+  shape <nvidia-gpu> <koord-gpu> <gpu-shared> <gpu-core> <gpu-memory> <gpu-memory-ratio>   (`_` = absent) preparePod's request shape:
+     shape err | shape skip | shape <count> <shared> <core> <memory> <ratio> 0      (per device, `_` = absent)
   events harness (device type 0 only; <shape> ::= 0 typed object | 1 tombstone by value | 2 POINTER to a tombstone |
       3 tombstone holding another type | 4 nil | 5 object of another type — Model/C07RO.lean `Shape`):
   evadd <shape> <pod> <assigned> <terminated> <groups>                                   onPodAdd(obj)
@@ -27,6 +30,7 @@ three resource dimensions per type.  A resource list is 3 tokens, `_` = key abse
   rvadd <shape> <rsv> <valid> <active> <assigned> <terminated> <groups>                  reservation handler OnAdd
   rvupd <shO> <shN> <rsv> (<valid> <active> <assigned> <terminated>)old (…)new <groups old> <groups new>   OnUpdate
   rvdel <shape> <rsv> <valid> <active> <assigned> <terminated> <groups>                  OnDelete
+  evbad <kind 0 add | 1 update, new annotation bad | 2 update, old annotation bad | 3 delete> <pod>   the annotation is not JSON
   dvref <kind 0 add | 1 update | 2 delete> <shapeA> <shapeB> <n> (<type> <minor> q q q)*   Device informer event; the entries are
      the inventory the event installs IF it is decoded (delete: the invalidated one)
      (sevOps / revOps / devOps decide which ledger ops happen)
@@ -380,6 +384,22 @@ def runLine (d : DState) (line : String) : DState × List String :=
         let d' := applyShaped d (fun t =>
           revOps (.rsvUpdate so sn p { valid := ov, active := oac, pod := podObjOf go t oa ot }
                                      { valid := nv, active := nac, pod := podObjOf gn t na nt }))
+        (d', dump d'.node ++ [flagLine d'])
+      | none => (d, ["bad-op"])
+    else if kind = "shape" then
+      let optTok (t : String) : Option (Option Nat) := if t = "_" then some none else (t.toNat?).map some
+      match rest.mapM optTok with
+      | some [nv, kg, sh, co, me, ra] =>
+        let showO (o : Option Nat) : String := match o with | some v => toString v | none => "_"
+        match podShape { nv := nv, kg := kg, sh := sh, co := co, me := me, ra := ra } with
+        | .skip => (d, ["shape skip"])
+        | .err => (d, ["shape err"])
+        | .ok g => (d, [s!"shape {g.count} {if g.shared then 1 else 0} {showO g.co} {showO g.me} {showO g.ra} 0"])
+      | _ => (d, ["bad-op"])
+    else if kind = "evbad" then
+      match (do let k ← pNat; let p ← pNat; pEnd; pure (k, p)).run' rest with
+      | some (_, p) =>
+        let d' := applyShaped d (fun _ => sevOps (.unparsable p))
         (d', dump d'.node ++ [flagLine d'])
       | none => (d, ["bad-op"])
     else if kind = "dvref" then
